@@ -175,6 +175,10 @@ known("KF26-bn-export-drops-or-misroutes-variables", ["C31"],
       "the exported network can lack the variable of a queried probabilistic fact that is also used in a rule body with other variables, and can contain a directed cycle between a head variable and its choice variable when two annotated disjunctions share head atoms",
       "0.1::h(c2). d(c1). d(c2). s :- d(X), h(Y). query(h(c2)). query(s).  (network has only c0 and s);  0.2::e; 0.2::d; 0.2::c; 0.2::a. 0.3::e; 0.3::a. q :- a, d. query(q).  (cycle a <-> c0)",
       match_any=[{"clause": "query-variable-missing"}, {"clause": "network-cyclic"}, {"clause": "network-not-well-formed"}])
+known("KF27-unbuffered-modes-wrong-answers-on-cycles", ["C04"],
+      "on programs with (positive) cycles the unbuffered / random-order modes can lose answers or report different probabilities than the default engine (besides the errors of KF5/KF6): results of a cycle are forwarded before the cycle is closed",
+      "0.3::f. 0.1::g. ... cyclic non-ground program, documented random order: q(c1,c2) (P = 0.16) is not reported (replay: ./check C04 --seed 2)",
+      match_any=[{"clause": c, "variant": v, "cyclic": True} for c in ["missing-instance", "prob", "spurious-answer", "mode-dependent"] for v in ("unbuf", "rc", "rand")])
 fixed("FX1-break-cycles-true-child", ["C01", "C09"], "29bdee9",
       "AssertionError in LogicFormula.get_node(0) from _break_cycles when a disjunction below an evidence node contains the TRUE node",
       "0.1::h(c1). d(c1). d(c2). p(X) :- d(X), r(c1). p(Y) :- d(Y). r(X) :- p(X). r(Y) :- d(Y), h(X). query(p(c1)). evidence(r(c1)).")
